@@ -138,7 +138,7 @@ snapprop("C04", "other", "Texel.Properties.C04",
     extra_trusted=["edge distance and coverage are explored with exact oracles, not proved"])
 
 snapprop("C18", "other", "Texel.Properties.C18",
-    ["Texel.C18.C18_boundary_exists", "Texel.C18.C18_no_vertex_invented", "Texel.C18.C18_split_preserves_area", "Texel.C18.C18_flags_exact", "Texel.C18.C18_dedup_subset", "Texel.GenHits.gen_hits", "Texel.GenHits.gen_isHitF"],
+    ["Texel.C18.C18_boundary_exists", "Texel.C18.C18_no_vertex_invented", "Texel.C18.C18_split_preserves_area", "Texel.C18.C18_flags_exact", "Texel.C18.C18_dedup_subset", "Texel.C18.C18_assembly_invents_no_ring_partial", "Texel.GenHits.gen_hits", "Texel.GenHits.gen_isHitF"],
     ["snap", FUNC],
     "partial Lean 4 proof (routed boundary exists; no returned vertex is invented: each is a routed pixel; ring splitting cuts a ring into rings without repetition whose signed areas add up to the ring's; spike removal only removes) + exact routed-run / hole-containment / signed-area oracle on cases whose model chains visit each centre at most twice",
     "Partial proof + verified-oracle exploration: the routed boundary (the model's chains, routing proved exact) is computed for every case; for (polygon, level) pairs with max visits <= 2 the three conclusions are checked exactly on the implementation's output. "
